@@ -269,7 +269,14 @@ Proof. rewrite rev_append_rev, rev_app_distr, rev_involutive, <- app_assoc. refl
    column with bi = block_indent >= n + 1. Equality holds for the multi-line layout; for the
    single-line layout (bi > n + 1) the lexer eats leading blanks of continuation lines, hence the
    hypothesis no_pair 10 32. *)
-Ltac slim := repeat match goal with H : context[lex_f] |- _ => clear H end.
+Ltac slim := repeat match goal with
+  | H : context[lex_f] |- _ => clear H
+  | H : _ = true |- _ => clear H
+  | H : _ \/ _ |- _ => clear H
+  | H : _ -> _ |- _ => clear H
+  | H : ychars _ |- _ => clear H
+  | H : store_ok _ |- _ => clear H
+  end.
 Ltac slia := slim; lia.
 Lemma dq_text_roundtrip bi n c r :
   N.of_nat n + 1 <= bi -> is_term c = true ->
@@ -382,4 +389,191 @@ Proof.
     apply Hdef.
     + cbn [hd]. unfold dqplain. tauto.
     + constructor; [tauto|constructor].
+Qed.
+
+(* ====================================================================================== *)
+(* single-quoted text: the round trip                                                      *)
+(* ====================================================================================== *)
+
+Lemma sq_step_char f bi ci tw ch r acc :
+  store_ok ch -> ch <> [] -> hd 0 ch <> 39 ->
+  lex_f (S f) QS_SQ bi ci tw (ch ++ r) acc = lex_f f QS_SQ bi ci tw r (rev_append ch acc).
+Proof.
+  intros Hs Hne Hp. destruct ch as [|x ch]; [congruence|]. cbn [hd] in Hp.
+  apply N.eqb_neq in Hp. pose proof (Hs r) as E. cbn [app] in E |- *. cbn [lex_f].
+  rewrite Hp, E. reflexivity.
+Qed.
+
+Lemma sq_open_steps f r acc :
+  lex_f (5 + f) QS_SQ 0 0 O (sq_open ++ r) acc = lex_f f QS_DQ 0 0 O r acc.
+Proof. reflexivity. Qed.
+
+Lemma dq0_step_quote f r acc :
+  lex_f (S f) QS_DQ 0 0 O (39 :: r) acc = lex_f f QS_DQ 0 0 O r (39 :: acc).
+Proof. reflexivity. Qed.
+
+Lemma cont_skip_spaces bi ci tw r acc : forall (k : nat) f,
+  lex_f (k + f) QS_CONT bi ci tw (repeat 32 k ++ r) acc = lex_f f QS_CONT bi ci tw r acc.
+Proof. induction k as [|k IH]; intro f; [reflexivity|]. cbn [repeat app Nat.add]. rewrite <- IH. reflexivity. Qed.
+
+Lemma sq_close_steps n f r acc :
+  lex_f (4 + (n + S f)) QS_DQ 0 0 O (sq_close (repeat 32 n) ++ r) acc = lex_f f QS_SQ 0 0 O r acc.
+Proof.
+  unfold sq_close. rewrite <- !app_assoc.
+  change (lex_f (n + S f) QS_CONT 0 0 O (repeat 32 n ++ [39] ++ r) acc = lex_f f QS_SQ 0 0 O r acc).
+  rewrite cont_skip_spaces. reflexivity.
+Qed.
+
+Lemma sq_end f c r acc :
+  is_term c = true -> lex_f (S (S f)) QS_SQ 0 0 O (39 :: c :: r) acc = Ok (rev acc, c :: r).
+Proof. intro H. cbn [lex_f]. change (39 =? 39) with true. cbn iota. apply next_term. exact H. Qed.
+
+Lemma sq_close_length n : length (sq_close (repeat 32 n)) = (n + 5)%nat.
+Proof. unfold sq_close. rewrite !app_length, repeat_length. cbn [length]. lia. Qed.
+
+Lemma sq_text_roundtrip n c r :
+  is_term c = true ->
+  forall s, ychars s ->
+    forall (inrun : bool) f acc,
+      Nat.lt (length (sq_line (repeat 32 n) inrun s ++ 39 :: c :: r)) f ->
+      lex_f f (if inrun then QS_DQ else QS_SQ) 0 0 O (sq_line (repeat 32 n) inrun s ++ 39 :: c :: r) acc
+      = Ok (rev acc ++ s, c :: r).
+Proof.
+  intros Hc s Hs.
+  induction Hs as [|ch s Hch Hs IH]; intros inrun f acc Hlen.
+  - destruct inrun; cbn [sq_line] in *.
+    + rewrite app_length, sq_close_length in Hlen. cbn [length] in Hlen.
+      replace f with (4 + (n + S (S (S (f - n - 7)))))%nat by slia.
+      rewrite sq_close_steps, sq_end by exact Hc. rewrite app_nil_r. reflexivity.
+    + cbn [app length] in *. destruct f as [|[|f]]; [slia|slia|].
+      rewrite sq_end by exact Hc. rewrite app_nil_r. reflexivity.
+  - destruct Hch as (Hok & Hne & Hshape).
+    assert (Hchunk : Forall (fun b => b <> 39) ch ->
+                     lex_f f (if inrun then QS_DQ else QS_SQ) 0 0 O
+                       (sq_line (repeat 32 n) inrun (ch ++ s) ++ 39 :: c :: r) acc = Ok (rev acc ++ ch ++ s, c :: r)).
+    { intro Hall. destruct (sq_line_chunk (repeat 32 n) ch s Hall Hne) as [E1 E2].
+      assert (Hhd : hd 0 ch <> 39).
+      { destruct ch as [|x ch]; [congruence|]. inversion Hall; subst. assumption. }
+      assert (Hl : (1 <= length ch)%nat) by (destruct ch; [congruence|cbn [length]; lia]).
+      destruct inrun.
+      - rewrite E2 in Hlen |- *. rewrite <- !app_assoc in Hlen |- *.
+        rewrite app_length, sq_close_length, app_length in Hlen.
+        replace f with (4 + (n + S (S (f - n - 6))))%nat by slia.
+        rewrite sq_close_steps, sq_step_char by assumption.
+        rewrite (IH false); [rewrite rev_rev_append; reflexivity|]. slia.
+      - rewrite E1 in Hlen |- *. rewrite <- !app_assoc in Hlen |- *. rewrite app_length in Hlen.
+        destruct f as [|f]; [slia|]. rewrite sq_step_char by assumption.
+        rewrite (IH false); [rewrite rev_rev_append; reflexivity|]. slia. }
+    destruct Hshape as [Hall|[a ->]].
+    { apply Hchunk. eapply Forall_impl; [|exact Hall]. unfold plain. intros b Hb. tauto. }
+    destruct (N.eq_dec a 39) as [->|N39]; [|apply Hchunk; constructor; [exact N39|constructor]].
+    clear Hchunk. cbn [app sq_line] in *. change (39 =? 39) with true in *. cbn iota in *.
+    assert (Hgoal : forall s0, rev (39 :: acc) ++ s0 = rev acc ++ 39 :: s0).
+    { intro s0. cbn [rev]. rewrite <- app_assoc. reflexivity. }
+    destruct inrun.
+    + cbn [app length] in *. destruct f as [|f]; [slia|]. rewrite dq0_step_quote.
+      rewrite (IH true); [rewrite Hgoal; reflexivity|]. slia.
+    + rewrite <- !app_assoc in Hlen |- *. rewrite app_length in Hlen. cbn [app length] in Hlen |- *.
+      change (length sq_open) with 5%nat in Hlen.
+      replace f with (5 + S (f - 6))%nat by slia.
+      rewrite sq_open_steps, dq0_step_quote.
+      rewrite (IH true); [rewrite Hgoal; reflexivity|]. slia.
+Qed.
+
+(* ====================================================================================== *)
+(* columns                                                                                 *)
+(* ====================================================================================== *)
+
+Lemma col_after_app s1 : forall c s2, col_after c (s1 ++ s2) = col_after (col_after c s1) s2.
+Proof. induction s1 as [|x s1 IH]; intros c s2; [reflexivity|]. cbn [app col_after]. apply IH. Qed.
+
+Lemma col_after_nonl s : forall c, no_byte 10 s = true -> col_after c s = c + N.of_nat (length s).
+Proof.
+  induction s as [|x s IH]; intros c H; cbn [col_after length]; [lia|].
+  apply no_byte_cons in H. destruct H as [H1 H2]. apply N.eqb_neq in H1. rewrite H1, IH by exact H2. lia.
+Qed.
+
+Lemma no_byte_repeat b x n : x <> b -> no_byte b (repeat x n) = true.
+Proof. intro H. induction n as [|n IH]; [reflexivity|]. cbn [repeat]. apply no_byte_cons. auto. Qed.
+
+Lemma col_after_spaces c w : col_after c (spaces w) = c + w.
+Proof.
+  unfold spaces. rewrite col_after_nonl by (apply no_byte_repeat; discriminate).
+  rewrite repeat_length. lia.
+Qed.
+
+(* ====================================================================================== *)
+(* ypr_text() then read_qstring()                                                          *)
+(* ====================================================================================== *)
+
+(* the hypothesis the round trip needs, as a function of the layout *)
+Definition rt_hyp (single_line single_quoted : bool) (s : bytes) : bool :=
+  if single_quoted then no_byte 10 s
+  else no_byte 13 s && no_pair 32 10 s && (negb single_line || no_pair 10 32 s).
+
+Theorem text_roundtrip_dq shrink level name s sl c r :
+  no_byte 10 name = true -> ylexable s = true -> is_term c = true ->
+  no_byte 13 s = true -> no_pair 32 10 s = true -> (sl = true -> no_pair 10 32 s = true) ->
+  print_then_lex shrink level name s sl false (c :: r) = Ok (s, c :: r).
+Proof.
+  intros Hname Hs Hc H13 Hsn Hns. apply ylexable_ychars in Hs.
+  unfold print_then_lex, ypr_text_parts. cbn [andb negb]. rewrite andb_true_r.
+  set (w0 := indent_w shrink level).
+  destruct sl.
+  - (* single-line layout: the quote stands after the name *)
+    rewrite !col_after_app, col_after_spaces, (col_after_nonl name) by exact Hname.
+    cbn [col_after]. change (32 =? 10) with false. cbn iota.
+    cbn [app]. rewrite text_lines_dq. cbn [rev ypr_encode flat_map app]. rewrite <- app_assoc. cbn [app].
+    unfold lex_qstring, spaces.
+    match goal with |- lex_f _ _ ?b _ _ _ _ = _ => set (bi := b) end.
+    assert (Hbi : N.of_nat (N.to_nat w0) + 1 <= bi) by (subst bi; lia).
+    apply (dq_text_roundtrip bi (N.to_nat w0) c r Hbi Hc s Hs H13 Hsn (or_intror (Hns eq_refl)) _ [] O bi).
+    + intro E. congruence.
+    + left. reflexivity.
+    + clear Hbi. subst bi w0. cbn [length]. lia.
+  - (* multi-line layout: the quote stands on its own line after INDENT of the next level *)
+    set (w1 := indent_w shrink ((level + 1) mod 65536)).
+    rewrite !col_after_app, col_after_spaces, (col_after_nonl name) by exact Hname.
+    cbn [col_after]. change (10 =? 10) with true. cbn iota.
+    cbn [app]. rewrite text_lines_dq. cbn [rev ypr_encode flat_map app]. rewrite <- app_assoc. cbn [app].
+    unfold lex_qstring, spaces.
+    match goal with |- lex_f _ _ ?b _ _ _ _ = _ => set (bi := b) end.
+    assert (Hbi : N.of_nat (N.to_nat w1) + 1 = bi) by (subst bi; lia).
+    apply (dq_text_roundtrip bi (N.to_nat w1) c r (N.eq_le_incl _ _ Hbi) Hc s Hs H13 Hsn (or_introl Hbi) _ [] O bi).
+    + intro E. congruence.
+    + left. reflexivity.
+    + clear Hbi. subst bi w1. cbn [length]. lia.
+Qed.
+
+Theorem text_roundtrip_sq shrink level name s sl c r :
+  ylexable s = true -> is_term c = true -> no_byte 10 s = true ->
+  print_then_lex shrink level name s sl true (c :: r) = Ok (s, c :: r).
+Proof.
+  intros Hs Hc H10. apply ylexable_ychars in Hs.
+  unfold print_then_lex, ypr_text_parts. cbn [andb].
+  match goal with |- context[col_after 0 ?h] => generalize (col_after 0 h) end. intro col.
+  match goal with |- context[spaces ?w] => generalize w end. intro w.
+  cbn [app]. rewrite text_lines_one by exact H10. cbn [rev app]. rewrite <- app_assoc. cbn [app].
+  unfold lex_qstring, spaces.
+  rewrite (sq_text_roundtrip (N.to_nat w) c r Hc s Hs false); [reflexivity|]. cbn [length]. lia.
+Qed.
+
+Theorem text_roundtrip shrink level name s sl sq c r :
+  no_byte 10 name = true -> ylexable s = true -> is_term c = true -> rt_hyp sl sq s = true ->
+  print_then_lex shrink level name s sl sq (c :: r) = Ok (s, c :: r).
+Proof.
+  intros Hname Hs Hc Hh. unfold rt_hyp in Hh. destruct sq.
+  - apply text_roundtrip_sq; assumption.
+  - apply andb_true_iff in Hh. destruct Hh as [Hh H3]. apply andb_true_iff in Hh. destruct Hh as [H1 H2].
+    apply text_roundtrip_dq; try assumption.
+    intros ->. cbn [negb orb] in H3. exact H3.
+Qed.
+
+(* printing what was read back from a print reproduces the print *)
+Theorem print_fixpoint shrink level name s sl sq c r s' rest :
+  no_byte 10 name = true -> ylexable s = true -> is_term c = true -> rt_hyp sl sq s = true ->
+  print_then_lex shrink level name s sl sq (c :: r) = Ok (s', rest) ->
+  ypr_text shrink level name s' sl sq = ypr_text shrink level name s sl sq.
+Proof.
+  intros Hname Hs Hc Hh E. rewrite text_roundtrip in E by assumption. injection E as <- _. reflexivity.
 Qed.
